@@ -668,8 +668,19 @@ class H:
         consumed = [n.name for n, _k, ret, _o in log if ret is None]
         # "bound to no command": for every container the key travels through (the focus path at the call), by that
         # container's own reference command map -- private where it was given one, the shared one otherwise
-        cmd = next((c for c in (self.ref_cmd(n, key) for n in chain0 if not n.is_leaf()) if c is not None), None)
-        if all(n.is_leaf() for n in chain0):
+        # The containers the key may have travelled through: the focus path before and after the call, and -- a ListBox
+        # completes its deferred focus choice at the start of the call (module docstring), so the path before the call
+        # is not the path the input travels -- everything below a ListBox on either path.
+        via = [n for n in [*chain0, *self.chain()] if not n.is_leaf()]
+        for lb in [n for n in via if n.kind == "ListBox"]:
+            stack = [lb]
+            while stack:
+                m = stack.pop()
+                if not m.is_leaf():
+                    via.append(m)
+                    stack.extend(m.children().values())
+        cmd = next((c for c in (self.ref_cmd(n, key) for n in via) if c is not None), None)
+        if not via:
             cmd = self.shared_ref.get(key)
         why = sig = ""
         if r is not None and r != key:
